@@ -744,3 +744,99 @@ Fixpoint r_run (defer_err : bool) (n : N) (s : rstate) (evs : list revent) : out
       | other => other
       end
   end.
+
+(* ---- multi_stream::Request::get_response with the clock (ms) ----
+   The environment: each connection attempt either fails after d ms or yields a
+   stream connection after d ms on which the request then meets one fate;
+   delays = the values retry_time draws, in order. *)
+Inductive sres : Type :=
+| SReply (d : N)       (* the reply arrives d ms after the request was handed over *)
+| SWrong (d : N)       (* Err(WrongReplyForQuery) after d ms *)
+| SClosed (d : N)      (* Err(ConnectionClosed) after d ms *)
+| SFail (d : N)        (* any other error after d ms *)
+| SSilent.             (* nothing ever *)
+Inductive catt : Type := CFail (d : N) | COk (d : N) (r : sres).
+Inductive mres : Type := MOk (t : N) | MErrWrong (t : N) | MErrTimeout (t : N).
+Definition mres_time (r : mres) : N := match r with MOk t | MErrWrong t | MErrTimeout t => t end.
+
+(* QueryState::Delay(now, delay) and back to RequestConn; k continues there *)
+Definition ms_delay (T start now : N) (delays : list N) (k : N -> list N -> mres) : mres :=
+  if ms_budget_spent (now - start) T then MErrTimeout now
+  else if now + hd 0 delays <=? start + T then k (now + hd 0 delays) (tl delays)
+  else MErrTimeout (start + T).
+
+(* every await is wrapped in timeout(remaining, ..) with remaining computed from
+   `start` at the top of the turn, i.e. bounded by start + T; a connection or
+   a reply that becomes ready exactly at the deadline still has to travel
+   through the transport tasks and loses against the timer *)
+Fixpoint ms_request (T start now count : N) (atts : list catt) (delays : list N) : mres :=
+  if ms_budget_spent (now - start) T then MErrTimeout now else
+  match atts with
+  | [] => MErrTimeout (start + T)
+  | CFail d :: rest =>
+      if now + d <? start + T
+      then ms_delay T start (now + d) delays (fun now' dl' => ms_request T start now' (count + 1) rest dl')
+      else MErrTimeout (start + T)
+  | COk d r :: rest =>
+      if now + d <? start + T then
+        let now1 := now + d in
+        (* QueryState::StartQuery *)
+        let start1 := if ms_start_fixed then start else now1 in
+        if ms_budget_spent (now1 - start1) T then MErrTimeout now1 else
+        let deadline := start1 + T in
+        match r with
+        | SReply d' => if now1 + d' <? deadline then MOk (now1 + d') else MErrTimeout deadline
+        | SWrong d' => if now1 + d' <? deadline then MErrWrong (now1 + d') else MErrTimeout deadline
+        | SSilent => MErrTimeout deadline
+        | SClosed d' =>
+            if now1 + d' <? deadline then
+              if count + 1 =? ms_immediate_retry_at
+              then ms_request T start1 (now1 + d') (count + 1) rest delays
+              else ms_delay T start1 (now1 + d') delays (fun now' dl' => ms_request T start1 now' (count + 1) rest dl')
+            else MErrTimeout deadline
+        | SFail d' =>
+            if now1 + d' <? deadline
+            then ms_delay T start1 (now1 + d') delays (fun now' dl' => ms_request T start1 now' (count + 1) rest dl')
+            else MErrTimeout deadline
+        end
+      else MErrTimeout (start + T)
+  end.
+
+(* ---- load_balancer: the answer made up locally, and the burst gate ---- *)
+(* serve_fail(request): header from the request, RCODE SERVFAIL, the question
+   section copied, an OPT record when the request had one *)
+Definition lb_local (rid : N) (rqr : bool) (qs : list N) (has_opt : bool) : msg :=
+  mkMsg (lb_local_id rid) (lb_local_qr rqr) false lb_local_rcode
+        (if lb_local_copies_question then lenN qs else 0) 0 0 (if has_opt then 1 else 0)
+        (Some (if lb_local_copies_question then qs else [])) (Some []) None.
+
+(* an upstream: its burst limit and the requests it was given in the current
+   burst interval *)
+Definition lb_usable (u : option N * N) : bool :=
+  match fst u with Some mb => negb (lb_over_burst (snd u) mb) | None => true end.
+
+Fixpoint lb_bump (ups : list (option N * N)) (i : nat) : list (option N * N) :=
+  match ups, i with
+  | [], _ => []
+  | (mb, b) :: r, O => (mb, b + lb_burst_inc) :: r
+  | u :: r, S j => u :: lb_bump r j
+  end.
+
+(* one request inside a burst interval: None = answered locally, Some i = given
+   to upstream i; `pick` chooses among the usable ones (the policy is not modelled) *)
+Definition lb_step (ups : list (option N * N)) (pick : nat) : list (option N * N) * option nat :=
+  let usable := filter (fun i => lb_usable (nth i ups (None, 0))) (seq 0 (length ups)) in
+  match usable with
+  | [] => (ups, None)
+  | _ => let i := nth (Nat.modulo pick (length usable)) usable O in (lb_bump ups i, Some i)
+  end.
+
+Fixpoint lb_run (ups : list (option N * N)) (picks : list nat) : list (option nat) :=
+  match picks with
+  | [] => []
+  | p :: rest => let '(ups', o) := lb_step ups p in o :: lb_run ups' rest
+  end.
+
+Definition c15_lb_local := lb_local.
+Definition c15_lb_run := lb_run.
+Definition c15_ms_request (T : N) (atts : list catt) (delays : list N) : mres := ms_request T 0 0 0 atts delays.
